@@ -232,6 +232,20 @@ def run_keysets(case, part):
             part.violation("C16/order-dependence", "output depends on member insertion order", {"kind": "keyset", "value": enc(d0)}, exp, [k1, o1], None)
 
 
+PREFIXES = ["", "a", "\u00e9", "name", "\ud7ff"]
+TAILS = ["", "\u007f", "\ud7ff", "\ue000", "\uff21", "\uffff", "\U00010000", "\U0001f600", "\U0010ffff", "a"]
+
+
+def run_prefixed_keys(case, part):
+    """member names that share a prefix and first differ in (astral | U+E000..U+FFFF | below the surrogates): every pair and triple, every insertion order"""
+    keys = [case["prefix"] + t for t in TAILS]
+    for r in (2, 3):
+        for combo in itertools.combinations(keys, r):
+            for perm in itertools.permutations(combo):
+                d = {k: i for i, k in enumerate(perm)}
+                check_value(d, part, "keyset", "key-order", full=False)
+
+
 def gen_values(depth, children=2):
     if depth == 1:
         return list(LEAVES)
@@ -323,6 +337,8 @@ def run_case(case, part):
     k = case["kind"]
     if k == "sequences":
         return run_sequences(case, part)
+    if k == "prefixed-keys":
+        return run_prefixed_keys(case, part)
     if k in ("exponents",):
         run_exponents(case, part)
     elif k == "pow10":
@@ -347,6 +363,8 @@ def replay(case, part):
         return run_case(case, part)
     if k == "sequences":
         return run_case({"kind": "sequences", "depth": case.get("depth", 2), "first": case.get("first")}, part)
+    if k == "prefixed-keys":
+        return run_case(case, part)
     v = dec(case["value"])
     # recompute the feature the explorer used so that the same key is produced
     feat = None
@@ -388,6 +406,8 @@ def run(run):
         cases.append({"kind": "structures", "shard": s, "nshards": ns})
     for n, v, r in seq_menu():
         cases.append({"kind": "sequences", "depth": 3 if th else 2, "first": n})
+    for pre in PREFIXES:
+        cases.append({"kind": "prefixed-keys", "prefix": pre})
     run.mode = "DEV"
     run.rule = ("enumeration of doubles (every exponent x %d mantissa patterns x sign; +-2 ulp around every power of ten; all d.dd x 10^k), integer boundaries, "
                 "strings/keys over the code-point alphabet, every insertion order of <=4 keys out of 8, all JSON values of depth <=3 with <=2 children; "
